@@ -40,7 +40,10 @@ ReadVerdict(t, e) ==
       \* the store counts windows from its first candle; a timeframe is "off the epoch grid" when that start is not a
       \* multiple of the timeframe counted from 1970-01-01 (3D / 1W sessions starting on an arbitrary day)
       offgrid == IF Hdr(t).epoch0 % T # 0 THEN "(timeframe-off-the-epoch-grid)" ELSE ""
-      site == IF T = 1 THEN "get_candles(1m)" ELSE "get_candles" \o offgrid
+      \* reads go through the strategy API: Strategy.candles (the route's own property) or self.get_candles(...)
+      site == IF e.via = "Strategy.candles" THEN "Strategy.candles" \o offgrid
+              ELSE IF T = 1 THEN "get_candles(1m)" ELSE "get_candles" \o offgrid
+      cursite == IF e.via = "Strategy.candles" THEN "Strategy.current_candle" ELSE "get_current_candle"
   IN
   IF n1 = 0 THEN (IF e.ok /\ e.n = 0 THEN "ok" ELSE site \o ":empty-store-read-not-empty")
   ELSE IF n1 - 1 > Len(f) \/ nt = 0 THEN "machinery:1m-rows-missing"
@@ -58,8 +61,11 @@ ReadVerdict(t, e) ==
   ELSE IF e.isfull /\ Len(e.full) # cnt THEN site \o ":row-count"
   ELSE IF e.isfull /\ e.full[cnt] # expLast THEN site \o ":full-array-last-row-differs"
   ELSE IF e.isfull /\ \E w \in 1..(cnt - 1) : e.full[w] # Agg(f, (w - 1) * T + 1, w * T) THEN site \o ":completed-row-differs"
-  ELSE IF ~e.curok THEN "get_current_candle:raises(" \o e.curexc \o ")"
-  ELSE IF e.cur[1] # expLast THEN "get_current_candle:differs"
+  ELSE IF ~e.curok THEN cursite \o ":raises(" \o e.curexc \o ")"
+  ELSE IF e.cur[1] # expLast THEN cursite \o ":differs"
+  ELSE IF e.ohlcp # <<>> /\ <<e.ohlcp[1], e.ohlcp[2], e.ohlcp[3], e.ohlcp[4]>> # <<expLast[2], expLast[3], expLast[4], expLast[5]>>
+       THEN "Strategy.open/close/high/low:differs"
+  ELSE IF e.ohlcp # <<>> /\ e.ohlcp[5] # expLast[3] THEN "Strategy.price:differs-from-the-current-close"
   ELSE "ok"
 
 \* the stored one-minute candles equal the input candles except for the jump normalisation
